@@ -178,13 +178,20 @@ def wiring_case(rng: random.Random, rec: dict) -> tuple[dict, str | None]:
 class Case:
     """one minimisation problem, built deterministically from a seed"""
 
-    def __init__(self, seed: int):
+    def __init__(self, seed: int, force_kind: str | None = None):
         rng = random.Random(seed)
         self.seed = seed
-        kinds = ["quadratic", "quadratic-outside", "cosine", "linear", "camelback", "schwefel"]
+        self.force_kind = force_kind
+        kinds = ["quadratic", "quadratic-outside", "cosine", "linear", "camelback", "schwefel", "styblinski", "wallwell"]
         self.kind = rng.choice(kinds)
+        if force_kind:
+            self.kind = force_kind
         if self.kind == "camelback":
             dim = 2
+        elif self.kind == "styblinski":
+            dim = rng.choice([2, 2, 3])
+        elif self.kind == "wallwell":
+            dim = rng.randrange(1, 4)
         elif self.kind == "schwefel":
             dim = rng.randrange(1, 4)
         else:
@@ -192,10 +199,20 @@ class Case:
         self.dim = dim
         nr = np.random.RandomState(rng.getrandbits(31))
         self.boxkind = rng.choice(["finite", "finite", "half", "infinite", "mixed"])
-        if self.kind == "linear":
+        if self.kind in ("linear", "styblinski", "wallwell"):
             self.boxkind = "finite"
         if self.kind == "camelback":
             base = [(-3.0, 3.0), (-2.0, 2.0)]
+        elif self.kind == "styblinski":
+            # the unconstrained minima sit at x = -2.9035 (and 2.7468): with the first coordinate confined to
+            # [-2, 2] the constrained minima lie on its faces, and tight tolerances end in abnormal line searches
+            base = [(-2.0, 2.0)] + [(-5.0, 5.0)] * (dim - 1)
+        elif self.kind == "wallwell":
+            # a box of large extent with the minimum a few thousandths inside one of its walls
+            base = []
+            for _ in range(dim):
+                w = rng.choice([500.0, 800.0, 1000.0])
+                base.append((0.0, w) if rng.random() < 0.6 else (-w, 0.0) if rng.random() < 0.5 else (-w, w))
         elif self.kind == "schwefel":
             base = [(-500.0, 500.0)] * dim
         else:
@@ -225,6 +242,10 @@ class Case:
                 x0[j] = bounds[j][side]
         self.x0 = x0
         self.conv_crit = rng.choice([1e-2, 1e-4, 1e-6, 1e-8, 1e-10])
+        if self.kind == "styblinski":
+            self.conv_crit = rng.choice([1e-6, 1e-9, 1e-12, 1e-13])
+        if self.kind == "wallwell":
+            self.conv_crit = rng.choice([1e-6, 1e-8])
         self.n_steps = rng.choice([1, 2, 5, 20, 200, 200, 200])
         self.history_size = rng.choice([1, 3, 5, 10])
         na = rng.choice([None, 0, 1, 2, 3])
@@ -246,6 +267,10 @@ class Case:
             self.a = nr.randn(k)
         elif self.kind == "linear":
             self.w = nr.randn(dim) + 0.1
+        elif self.kind == "wallwell":
+            self.c = np.array([(hi - rng.uniform(1e-3, 8e-3)) if (rng.random() < 0.5 or lo == 0.0) and hi != 0.0
+                               else (lo + rng.uniform(1e-3, 8e-3)) for lo, hi in base])
+            self.k = np.array([rng.uniform(0.5, 3.0) for _ in range(dim)])
         elif self.kind == "camelback":
             from topsearch.potentials.test_functions import Camelback
             self.pot = Camelback()
@@ -263,6 +288,11 @@ class Case:
             return float(self.a @ np.cos(t) + 0.05 * x @ x), -(self.a * np.sin(t)) @ self.W + 0.1 * x
         if self.kind == "linear":
             return float(self.w @ x), self.w.copy()
+        if self.kind == "styblinski":
+            return float(0.5 * np.sum(x ** 4 - 16.0 * x ** 2 + 5.0 * x)), 0.5 * (4.0 * x ** 3 - 32.0 * x + 5.0)
+        if self.kind == "wallwell":
+            d = x - self.c
+            return float(0.5 * np.sum(self.k * d * d)), self.k * d
         f, g = self.pot.function_gradient(x)
         return float(f), np.array(g, dtype=float)
 
@@ -288,7 +318,7 @@ class Case:
         return lbfgs.minimise(**kw)
 
     def describe(self) -> dict:
-        return {"case_seed": self.seed, "kind": self.kind, "dim": self.dim, "box": self.boxkind,
+        return {"case_seed": self.seed, "case_kind": self.force_kind, "kind": self.kind, "dim": self.dim, "box": self.boxkind,
                 "bounds": [list(b) for b in self.bounds], "x0": self.x0.tolist(), "conv_crit": self.conv_crit,
                 "n_steps": self.n_steps, "history_size": self.history_size, "args": self.args,
                 "args_omitted": self.args_omitted}
@@ -466,9 +496,11 @@ CORPUS_SEEDS = [1, 2, 3, 5, 8, 13, 21, 34]
 def predicates(ctx: Ctx) -> None:
     rng = ctx.rng
     n = ctx.scale(120, 1000) * (4 if getattr(ctx, "deep_search", False) else 1)
-    seeds = CORPUS_SEEDS + [rng.getrandbits(32) for _ in range(n)]
-    for s in seeds:
-        c = Case(s)
+    seeds = [(s, None) for s in CORPUS_SEEDS + [rng.getrandbits(32) for _ in range(n)]]
+    # abnormal line-search exits (warnflag 2) are rare: about 1 in 100 tight-tolerance runs on this surface
+    seeds += [(rng.getrandbits(32), "styblinski") for _ in range(ctx.scale(600, 4000))]
+    for s, fk in seeds:
+        c = Case(s, fk)
         r = clauses(c)
         ctx.stats.case({"stream": "predicate", "kind": c.kind, "dim": c.dim, "box": c.boxkind, "seed": s}, True)
         if r:
@@ -479,7 +511,7 @@ def predicates(ctx: Ctx) -> None:
 def replay(ctx: Ctx, data: dict) -> bool:
     ok = True
     if "case_seed" in data:
-        r = clauses(Case(int(data["case_seed"])))
+        r = clauses(Case(int(data["case_seed"]), data.get("case_kind")))
         if r:
             print(f"  {r[0]}: {r[1]}")
             ok = False
@@ -490,7 +522,7 @@ def replay(ctx: Ctx, data: dict) -> bool:
             ok = False
     for d in data.get("divergences", []):
         if "case_seed" in d:
-            r = clauses(Case(int(d["case_seed"])))
+            r = clauses(Case(int(d["case_seed"]), d.get("case_kind")))
             if r:
                 print(f"  {r[0]}: {r[1]}")
                 ok = False
